@@ -192,6 +192,8 @@ def brackets(in_file, in_encoding, **params):
     state = 0
     level = 0
     term_cnt = 1
+    # the label of the node we are in, as it was written
+    rawlabel = None
     with io.open(in_file, encoding=in_encoding) as stream:
         lexer = bracket_lexer(stream)
         for lextoken, lexclass in lexer:
@@ -223,8 +225,9 @@ def brackets(in_file, in_encoding, **params):
                         else:
                             if not 'quiet' in params:
                                 print("got empty POS", file=sys.stderr)
-                            # last token was a word
-                            queue[-1].data['word'] = queue[-1].data['label']
+                            # last token was a word (take it as it was
+                            # written, gf_split may have cut the label)
+                            queue[-1].data['word'] = rawlabel
                             # queue[-1].data['label'] = queue[-2].data['label']
                             queue[-1].data['label'] = trees.DEFAULT_LABEL
                             queue[-1].data['edge'] = trees.DEFAULT_EDGE
@@ -300,6 +303,7 @@ def brackets(in_file, in_encoding, **params):
                     pass
                 elif state in [1, 9]:
                     # phrase label, 9 when root label, 1 otherwise
+                    rawlabel = lextoken
                     if 'gf_split' in params:
                         label_parts = trees.parse_label(lextoken,
                                                   gf_separator=gf_separator)
